@@ -255,6 +255,29 @@ pub fn run_case(ctx: &Ctx, c: &C15Case, n: u64) -> Verdict {
                 continue;
             }
         };
+        // (run at once: later steps of this check rebuild the tree, which reuses inode numbers)
+        let mut poisoned: Option<String> = None;
+        // nothing learnt during a faulted run may leak into later runs: the next run on the same
+        // cache, without any fault, must give the clean result of the full tree
+        if c.opts.cache {
+            let mut r2 = Run::fclones(&cd).arg("group").args(c.opts.args()).arg("-f").arg("json").args(&roots);
+            if let Some(d) = c.opts.disk_env() {
+                r2 = r2.env("FCLONES_VERIF_DISK_KIND", d);
+            }
+            let o2 = r2.run();
+            runs += 1;
+            if !o2.timed_out {
+                let got2 = if o2.ok() { parse_json(&o2.stdout).ok().map(|r| r.path_sets()) } else { None };
+                if got2.as_ref() != Some(&clean_sets) {
+                    poisoned = Some(format!("the next `group --cache` run (no fault) differs from a clean run\nexpected: {}\ngot: {}\n{}", describe_groups(&clean_sets), got2.as_ref().map(|g| describe_groups(g)).unwrap_or_default(), o2.brief()));
+                }
+            }
+        }
+        if let Some(detail) = poisoned {
+            ctx.report_limited(&case, &mk("faulted-run-poisons-the-cache", detail), 3);
+            continue;
+        }
+
         // what each fault may hide: alternatives per fault, the outcome must match one combination
         use std::os::unix::fs::MetadataExt;
         let mut alternatives: Vec<Vec<Vec<PathBuf>>> = vec![];
@@ -311,6 +334,11 @@ pub fn run_case(ctx: &Ctx, c: &C15Case, n: u64) -> Verdict {
                 "read" => {
                     alts.push(vec![p.clone()]);
                     alts.push(with_links(&p));
+                    // an ignore file whose read fails after its text was delivered may still be applied
+                    // (nothing documents either way): tolerated as well as "left out"
+                    if p.file_name().map(|n| n == ".gitignore" || n == ".fdignore").unwrap_or(false) {
+                        alts.push(vec![]);
+                    }
                     must_be_absent.push(f.path.0.clone());
                     if f.errno != "ENOENT" {
                         warn_if_hidden.push(f.path.0.clone());
@@ -447,6 +475,21 @@ pub fn run_case(ctx: &Ctx, c: &C15Case, n: u64) -> Verdict {
     Verdict::Pass { nontrivial: nontrivial > 0, classes: vec![format!("entries-{}", entries.len().min(20))] }
 }
 
+/// Trees of the C09 generator (ignore files on several levels, hidden names, symlinks, nesting 0-4) with
+/// default options: faults on ignore files, links and directories during the walk.
+fn walk_case_strategy() -> BoxedStrategy<C15Case> {
+    (1usize..=2)
+        .prop_flat_map(|roots| {
+            (crate::props::c09::tree_s(roots, true), proptest::collection::vec(0u16..u16::MAX, 4), prop::bool::weighted(0.3), prop::bool::weighted(0.3)).prop_map(move |(tree, pair_seeds, sl, hidden)| {
+                let mut opts = GOpts::default();
+                opts.symbolic_links = sl;
+                opts.min0 = hidden;
+                C15Case { tree, roots, opts, ext4: false, faults: None, pair_seeds, repeat_root: false }
+            })
+        })
+        .boxed()
+}
+
 pub fn check(tier: Tier) -> i32 {
     let ctx = Ctx::new("C15", tier);
     if !std::path::Path::new(SHIM).exists() {
@@ -455,10 +498,11 @@ pub fn check(tier: Tier) -> i32 {
     }
     replay_corpus::<C15Case, _>(&ctx, |c, n| run_case(&ctx, c, n));
     drive(&ctx, "main", tier.pick(64, 900), case_strategy, |c, n| run_case(&ctx, c, n));
+    drive(&ctx, "walk", tier.pick(20, 400), walk_case_strategy, |c, n| run_case(&ctx, c, n));
     cleanup_process_scratch();
     ctx.finish(
         "fault_enumeration",
-        "proptest-generated scenario trees (4-9 files up to 140 KB, nested directories, hard links, near-duplicates; tmpfs and ext4; in a quarter of the scenarios the first root is given twice) x group options (cache, transform, pinned device kind, hash fn, stage knobs). The read-side libc calls (stat, lstat, open, n-th read, opendir, n-th readdir, readlink, FIEMAP ioctl) of a clean run are recorded per tree entry with the LD_PRELOAD interposer; then for EVERY entry strictly below the roots, EVERY recorded call occurrence (capped at 6-8 per function and path) and every applicable errno (EACCES, EIO, ENOENT) one run is made with that single call failing, plus sampled pairs on two different entries and, for every two files of equal length, the same n-th read failing in both; a quarter of the scenarios run with --skip-content-hash (pinned SSD, suffix stage above 64 KiB). Metamorphic oracle: the report must equal a clean run on the tree with the affected entry physically removed (the file; the sub-tree for directory faults; the children not yet returned for a readdir fault; nothing for FIEMAP) - or, for faults on metadata calls that fclones may tolerate, the clean report of the full tree; exit status 0; a warning unless the errno is ENOENT; a file whose open/read failed is in no group. evaluations = faulted runs; non-trivial = the faulted entry is (or contains) a member of a group of the clean report and the fault hits open/read.",
+        "proptest-generated scenario trees (4-9 files up to 140 KB, nested directories, hard links, near-duplicates; tmpfs and ext4; in a quarter of the scenarios the first root is given twice) x group options (cache, transform, pinned device kind, hash fn, stage knobs). The read-side libc calls (stat, lstat, open, n-th read, opendir, n-th readdir, readlink, FIEMAP ioctl) of a clean run are recorded per tree entry with the LD_PRELOAD interposer; then for EVERY entry strictly below the roots, EVERY recorded call occurrence (capped at 6-8 per function and path) and every applicable errno (EACCES, EIO, ENOENT) one run is made with that single call failing, plus sampled pairs on two different entries and, for every two files of equal length, the same n-th read failing in both; a quarter of the scenarios run with --skip-content-hash (pinned SSD, suffix stage above 64 KiB). Metamorphic oracle: the report must equal a clean run on the tree with the affected entry physically removed (the file; the sub-tree for directory faults; the children not yet returned for a readdir fault; nothing for FIEMAP) - or, for faults on metadata calls that fclones may tolerate, the clean report of the full tree; exit status 0; a warning unless the errno is ENOENT; a file whose open/read failed is in no group. After a faulted run with --cache the next run on the same cache, without fault, must equal the clean run. A second generator takes the trees of the C09 generator (ignore files on several levels, hidden names, file/directory symlinks, nesting 0-4) so that faults also hit ignore files, links and nested directories during the walk. evaluations = faulted runs; non-trivial = the faulted entry is (or contains) a member of a group of the clean report and the fault hits open/read.",
         &["faults are injected at libc level by path and occurrence number, independent of the schedule", "the harness runs as root, so permission bits cannot make files unreadable"],
     )
 }
